@@ -220,3 +220,70 @@ def listen_fault(name):
         from taskiq.exceptions import BrokerError
         return BrokerError()
     raise AssertionError("scenario: unknown listen fault %r" % (name,))
+
+
+# --------------------------------------------------------------------------- start_listen running the worker for real
+class _LoopPolicy(real_asyncio.DefaultEventLoopPolicy):
+    """the place where an application chooses its event-loop implementation: asyncio.new_event_loop() hands out what
+    `factory()` builds (the harness' virtual-time loop).  Everything else is the default policy."""
+
+    def __init__(self, factory):
+        super().__init__()
+        self._factory = factory
+        self.created = []
+
+    def new_event_loop(self):
+        loop = self._factory()
+        self.created.append(loop)
+        return loop
+
+
+def run_start_listen(argv, get_broker, get_receiver, new_loop, ctl, broker_as="object"):
+    """The real `taskiq.cli.worker.run.start_listen(WorkerArgs.from_cli(argv))` runs a worker from beginning to end, the way
+    every worker child process does: it installs its signal handlers, CREATES ITS EVENT LOOP with the real
+    asyncio.new_event_loop() (an event-loop policy installed for the duration of the call makes that `new_loop()` - the
+    virtual-time loop), configures that loop, makes it the current one, imports the broker and the receiver type, builds the
+    pool and the receiver and runs `receiver.listen(shutdown_event)` and then the broker shutdown with its own
+    run_until_complete calls - on the loop object it made, with whatever loop-level settings it chose (task factory,
+    exception handler, debug flag, default executor).  Nothing is re-built by the driver.
+    Replaced for the duration of the call (things start_listen reaches outside itself):
+      import_object -> `get_broker(loop)` for the broker path (called when start_listen imports the broker: the loop exists and
+                       is current; with broker_as = "factory" a plain function returning the broker is handed out instead,
+                       which start_listen calls), `get_receiver()` for --receiver;
+      import_tasks  -> no-op;   uvloop -> None;
+      signal        -> a stand-in whose signal() records the handler: `ctl["signal"].handlers[signum]` is the real
+                       interrupt_handler closure of this start_listen call (the driver calls it to request a stop).
+    ctl (a dict the caller owns) gets "signal", "policy", "args"; the loop is ctl["policy"].created[0].  The caller closes
+    the loop (vloop.finish)."""
+    saved = {k: getattr(wrun, k) for k in ("import_object", "import_tasks", "signal", "uvloop")}
+    real_import = saved["import_object"]
+    old_policy = real_asyncio.get_event_loop_policy()
+    policy = _LoopPolicy(new_loop)
+    ctl["policy"] = policy
+
+    def import_object(path):
+        if path == BROKER_PATH:
+            loop = policy.created[-1] if policy.created else None
+            if broker_as == "factory":
+                def broker_factory():
+                    return get_broker(loop)
+                return broker_factory
+            return get_broker(loop)
+        if path == RECEIVER_PATH:
+            return get_receiver()
+        return real_import(path)
+
+    try:
+        wrun.import_object = import_object
+        wrun.import_tasks = lambda *a, **k: None
+        wrun.signal = ctl["signal"] = _Signal()
+        wrun.uvloop = None
+        real_asyncio.set_event_loop_policy(policy)
+        args = WorkerArgs.from_cli(argv)
+        args.configure_logging = False
+        ctl["args"] = args
+        wrun.start_listen(args)
+    finally:
+        for k, v in saved.items():
+            setattr(wrun, k, v)
+        real_asyncio.set_event_loop_policy(old_policy)
